@@ -1047,15 +1047,20 @@ func (c *Client) DialToSMTPClientWithContext(ctxDial context.Context) (*smtp.Cli
 	if c.logAuthData {
 		client.SetLogAuthData()
 	}
+	// From here on the connection is established. If any of the following steps fails, the caller
+	// does not get hold of the client, so the connection has to be closed here.
 	if err = client.Hello(c.helo); err != nil {
+		_ = client.Close()
 		return nil, err
 	}
 
 	if err = c.tls(client, &isEncrypted); err != nil {
+		_ = client.Close()
 		return nil, err
 	}
 
 	if err = c.auth(client, isEncrypted); err != nil {
+		_ = client.Close()
 		return nil, err
 	}
 
